@@ -76,9 +76,17 @@ def norm(t):
                 return norm(("call", ("global", "numpy.all"), args, kws))
             if q == "numpy.sqrt" and len(args) == 1:
                 return ("binop", "**", args[0], ("const", 0.5))
+            if q == "numpy.sum" and len(args) == 1 and all(n_ == "axis" for n_, _v in kws) and is_boolish(args[0]):
+                q = "numpy.count_nonzero"  # sum of a boolean array == number of True entries
+            if q == "numpy.invert" and len(args) == 1:
+                return ("unary", "~", args[0])
             fn = ("global", q)
         if fn == ("builtin", "abs"):
             fn = ("global", "numpy.abs")
+        # int(<count>) == <count>: counts are integers already
+        if fn == ("builtin", "int") and len(args) == 1 and not kws and args[0][0] == "call" and args[0][1] in (
+                ("global", "numpy.count_nonzero"), ("builtin", "len"), ("global", "numpy.size")):
+            return args[0]
         return ("call", fn, args, tuple(sorted(kws, key=lambda p: p[0])))
     if k == "attr":
         b = norm(t[1])
@@ -123,11 +131,46 @@ def norm(t):
     if k == "cmp":
         op, l, r = t[1], norm(t[2]), norm(t[3])
         if op in (">", ">="):  # a > b == b < a
-            return ("cmp", _FLIP[op], r, l)
+            op, l, r = _FLIP[op], r, l
+        # count_nonzero(B) compared with 0 / 1  ==  any(B) / not any(B)
+        cnt, other, cnt_left = None, None, True
+        if _is_count(l) and r[0] == "const":
+            cnt, other = l, r[1]
+        elif _is_count(r) and l[0] == "const":
+            cnt, other, cnt_left = r, l[1], False
+        if cnt is not None and isinstance(other, (int, float)) and not isinstance(other, bool):
+            anyb = ("call", ("global", "numpy.any"), cnt[2], ())
+            none = ("unary", "not", anyb)
+            key = (op, other, cnt_left)
+            if key in (("==", 0, True), ("<=", 0, True), ("<", 1, True), ("==", 0, False)):
+                return none
+            if key in (("!=", 0, True), ("!=", 0, False), ("<", 0, False), ("<=", 1, False)):
+                return anyb
         return ("cmp", op, l, r)
     if k == "phi":
         return phi(norm(a) for a in t[1])
     return tuple(norm(x) if isinstance(x, tuple) else x for x in t)
+
+
+_BOOL_FUNCS = {"numpy.isnan", "numpy.isfinite", "numpy.isinf", "numpy.isclose", "numpy.logical_not", "numpy.logical_and", "numpy.logical_or",
+               "numpy.isneginf", "numpy.isposinf"}
+
+
+def is_boolish(t) -> bool:
+    """Syntactically a boolean array: comparison, negation / conjunction of such, isnan(...) ..."""
+    if t[0] == "cmp":
+        return t[1] not in ("is", "is not", "in", "not in")
+    if t[0] == "unary" and t[1] in ("~", "not"):
+        return is_boolish(t[2])
+    if t[0] == "binop" and t[1] in ("&", "|", "^"):
+        return is_boolish(t[2]) and is_boolish(t[3])
+    if t[0] == "call" and t[1][0] == "global" and t[1][1] in _BOOL_FUNCS:
+        return True
+    return False
+
+
+def _is_count(t) -> bool:
+    return t[0] == "call" and t[1] == ("global", "numpy.count_nonzero") and len(t[2]) == 1 and not t[3]
 
 
 def _flatten(x, op):
